@@ -127,9 +127,51 @@ def check_shexc(text, g, cfg, kf, reproduced, viol):
                                      "shexc": text, **pipeline.case_json(g, cfg)})
     # label tokens and property tokens must be valid ShExC tokens: <iri> or pname with a declared prefix (checked by the parser);
     # additionally the local part of a prefixed name must be a legal PN_LOCAL for the IRIs we generate
-    for m in re.finditer(r'(?m)^\s*(?:\^\s+)?(\S+)\s', text):
-        pass
+    declared = {p for p, _ in parsed['prefixes']}
+    for ln in text.split("\n"):
+        st = ln.strip()
+        if not st or st.startswith(('PREFIX', '#', '{', '}')):
+            continue
+        for tok in st.split():
+            if tok.startswith('#'):
+                break                       # the rest of the line is a comment
+            bad = bad_token(tok, declared)
+            if bad:
+                viol.append({"what": "token %r is not a ShExC token: %s" % (tok, bad), "line": ln, "shexc": text, **pipeline.case_json(g, cfg)})
+                return parsed
     return parsed
+
+
+_ESC = r"\\[_~.\-!$&'()*+,;=/?#@%]"
+_PLX = r"(?:%[0-9A-Fa-f]{2}|" + _ESC + ")"
+_PNAME = re.compile(r"^(?:[A-Za-z](?:[\w\-.]*[\w\-])?)?:(?:(?:[\w:]|" + _PLX + r")(?:(?:[\w\-.:]|" + _PLX + r")*(?:[\w\-:]|" + _PLX + r"))?)?$")
+_PLAIN = {'IRI', 'BNode', 'NONLITERAL', 'LITERAL', '.', 'OR', 'AND', '^', '?', '*', '+', ';', 'a'}
+
+
+def bad_token(tok, declared):
+    """None if `tok` (one blank-separated token of a shape header or constraint line) is a legal ShExC token of the emitted subset"""
+    t = tok.rstrip(';')
+    if t.startswith('@'):
+        t = t[1:]
+    if t.startswith('[') and t.endswith(']') and not t.endswith('~]'):
+        t = t[1:-1]
+    if t.startswith('[<') and t.endswith('>~]'):
+        t = t[1:-2]
+    if not t or t in _PLAIN or re.fullmatch(r"\{\d+\}", t):
+        return None
+    if t.startswith('<'):
+        if not t.endswith('>') or re.search(r'[<>"{}|^`\\\s]', t[1:-1]):
+            return "malformed IRI reference"
+        return None
+    if t.startswith('"'):
+        return None
+    if ':' in t:
+        if not _PNAME.match(t):
+            return "not a prefixed name (PNAME_LN): a local name cannot contain '#', '/' ..., so the rest would be read as something else"
+        if t.split(':', 1)[0] not in declared:
+            return "prefix %r is not declared" % t.split(':', 1)[0]
+        return None
+    return None
 
 
 def run(ctx):
